@@ -5,7 +5,7 @@ import random
 import subprocess
 import tempfile
 
-from harness import common, core, gens, text, vers
+from harness import common, core, dense, gens, text, vers
 
 WORKLOAD = r'''
 import json, sys
@@ -23,6 +23,10 @@ for t in json.load(open(sys.argv[1])):
         out.append(["ERR", type(e).__name__])
 print(json.dumps(out))
 '''
+
+
+# what str.split() removes: the ASCII controls FS GS RS US included, and the Unicode spaces
+SPLIT_WS = " \t\n\r\x0b\x0c\x1c\x1d\x1e\x1f\x85\xa0\u2003\u3000"
 
 
 def decorate(r, t):
@@ -50,7 +54,7 @@ def decorate(r, t):
         out = []
         for c in s:
             if r.random() < 0.15:
-                out.append(r.choice(" \t  \n"))
+                out.append(r.choice(" \t  \n") if r.random() < 0.6 else r.choice(SPLIT_WS))
             out.append(c)
         s = "".join(out) + (" " if r.random() < 0.3 else "")
         kinds.append("whitespace")
@@ -229,12 +233,15 @@ def run(ctx):
                 viol(f"canonical text depends on the hash seed: PYTHONHASHSEED={seeds[0]} gives {a[idx]} but PYTHONHASHSEED={sd} gives {b[idx]}",
                      inputs=dict(seeds=[seeds[0], sd], workload_item=json.load(open(wl))[idx] if idx < len(a) else None), observed=b[idx], expected=a[idx])
                 break
+    # ---- the same statement on dense families of versions (one edit apart, equal under another spelling): harness/dense.py
+    dense_ev, dense_per = dense.run(ctx, "C13", r, lambda what, **kw: violations.append(dict(kind="counterexample", stage="search", what=what, **kw)))
+    evals += dense_ev
     if not violations and (diffs or not proofs["ok"]):
         what = ("theorems of Props/C13.v no longer check: " + str(proofs.get("error"))[-400:]) if not proofs["ok"] else \
             ("model and implementation differ: " + str(diffs[0]))
         violations.append(dict(kind="no-failing-input-found", stage="proof" if not proofs["ok"] else "correspondence",
                                theorem_or_stream="Props/C13.v" if not proofs["ok"] else "from_string on the generic scheme / string primitives", what=what, diffs=diffs[:10]))
-    cov = dict(evaluations=evals, distinct_nontrivial=len(nontrivial),
+    cov = dict(evaluations=evals, dense_pairs=dense_per, distinct_nontrivial=len(nontrivial),
                rule=f"for each registered scheme {nper} ranges (well-formed, plus one in five with arbitrary comparators; versions from the scheme grammar), each rebuilt from a "
                     "shuffled tuple and parsed from 3 decorated variants of its text (order, explicit '=', stray pipes, letter case of vers:/scheme, whitespace anywhere): equal "
                     "range and identical canonical text required; from_string of the model vs the implementation on generic-scheme texts and on header variants; the same "
